@@ -76,6 +76,9 @@ inductive Ev
   | setClosing | joined | closed          -- L: stages of `close()`
   | ready (isW : Bool) (fd : Fd) | unready (isW : Bool) (fd : Fd)    -- environment
   | take (a : Sets) | sexit | selected (res : Sets) | report (res : Sets)   -- S
+  | ebadf                                 -- S: `select` raised EBADF/WSAENOTSOCK (a captured fd was closed after it
+                                          --    had been unregistered) and the poll of the waker alone found it readable:
+                                          --    the recovery branch of `_run_select` goes on to report `([waker fileno], [])`
   deriving DecidableEq, Repr
 
 def Ev.isS : Ev → Bool
@@ -91,6 +94,17 @@ def selectResult (s : St) (a : Sets) : Sets :=
     w := a.w.filter (fun fd => s.readyW.contains fd) }
 
 def Sets.isEmpty (a : Sets) : Bool := a.r.isEmpty && a.w.isEmpty
+
+/-- some captured fd is no longer registered.  Only such an fd can have been closed (closing an fd that is still
+registered is a caller error outside the property), so only then can `select` fail with EBADF. -/
+def stale (s : St) (a : Sets) : Bool :=
+  a.r.any (fun fd => !s.readers.contains fd) || a.w.any (fun fd => !s.writers.contains fd)
+
+/-- what the EBADF recovery branch reports: `rs = [self._waker_r.fileno()]`, `ws = []`.  The bare descriptor number is
+not a key of `_readers` (the waker is registered as the socket *object*), so `_handle_event` finds no callback for
+it: as far as `_handle_select` is concerned the round is empty — it dispatches nothing, does not even consume the
+waker, and only posts the next select with the updated sets. -/
+def recovered : Sets := { r := [], w := [] }
 
 /-- L may start something new only between callbacks and with no wake owed -/
 def lFree (s : St) : Bool := s.lpc == .running && !s.pendingWake
@@ -185,6 +199,12 @@ def step (s : St) : Ev → Option St
   | .report res =>
     match s.spc with
     | .selected r => if r == res then some { s with spc := .idle, queue := s.queue ++ [res] } else none
+    | _ => none
+  | .ebadf =>
+    -- `except OSError`: `select([waker], [], [], 0)` finds the waker readable → `ws = []`, fall through to the report
+    -- (waker not readable → the error is re-raised and the thread dies: not a transition, see `ebadf_recovers`)
+    match s.spc with
+    | .selecting a => if stale s a && s.bytes > 0 then some { s with spc := .selected recovered } else none
     | _ => none
 
 def run : St → List Ev → Option St
